@@ -25,8 +25,8 @@ RULE = ('cases: seeded histories of 20-50 ops over a hierarchy built per case: A
         'an explicit tag; distinct by (hierarchy shape, op trace).')
 ASSUMPTIONS = ['Agent/Environment/world classes are process-global: every history restores them through the public API in a finally block',
                'tags are plain ints']
-FLOORS = {'quick': {'two_type_class_queries': 82807, 'class_components_rearranged_in_one_go': 8, 'operations_after_which_nobody_looked': 2808, 'default_changed_before_the_new_agent_was_first_looked_at': 358, 'tags_read_inside_a_user_constructor': 185, 'classes_with_a_subclass_registry_hook': 376, 'agents_saved_and_restored_across_a_default_tag_change': 91, 'constructions_that_fail': 351, 'classes_from_a_shared_namespace_dict': 702, 'instances_numpy_tag': 827, 'class_observations': 100000, 'class_attach': 2000, 'class_detach': 380, 'rejected_duplicate_attach': 159,
-                    'rejected_absent_detach': 500, 'default_tag_changes': 2000, 'instances_default_tag': 1820,
+FLOORS = {'quick': {'two_type_class_queries': 82807, 'class_components_rearranged_in_one_go': 8, 'operations_after_which_nobody_looked': 2808, 'default_changed_before_the_new_agent_was_first_looked_at': 358, 'tags_read_inside_a_user_constructor': 185, 'classes_with_a_subclass_registry_hook': 376, 'agents_saved_and_restored_across_a_default_tag_change': 91, 'constructions_that_fail': 351, 'classes_from_a_shared_namespace_dict': 702, 'instances_numpy_tag': 827, 'class_observations': 100000, 'class_attach': 2000, 'class_detach': 363, 'rejected_duplicate_attach': 150,
+                    'rejected_absent_detach': 500, 'default_tag_changes': 2000, 'instances_default_tag': 1804,
                     'instances_default_tag_nonzero': 298, 'instances_explicit_tag': 800, 'instances_explicit_zero_vs_default': 100,
                     'environment_instances': 500, 'instances_added_to_environment': 1000, 'ops_on_library_classes': 2000, 'mid_history_classes': 500, 'same_named_classes': 300, 'big_many_classes': 2, 'big_many_class_components': 2,
                     'reach:Core._MetaAgent.add_class_component': 3000, 'reach:Core.Agent.__init__': 4600},
